@@ -104,8 +104,8 @@ class Extractor:
         self.ix = Index(self.docs)
         self.repo_root = repo_root
 
-    def lower(self, roots, loop_contracts=None, names=None, exclude=(), extern=()):
-        L = Lowering(self.ix, names=names)
+    def lower(self, roots, loop_contracts=None, names=None, exclude=(), extern=(), opts=None):
+        L = Lowering(self.ix, names=names, opts=opts)
         L.type_exprs = self.type_exprs
         L.loop_contracts = loop_contracts or {}
         L.loop_contracts_used = set()
@@ -405,12 +405,18 @@ def global_of(L, node):
     if not hasattr(L, 'global_text'):
         L.global_text = {}
     t = L.ty(node['type'])
-    init = [c for c in node.get('inner', ()) if c and c.get('kind', '').endswith(('Expr', 'Operator', 'Literal'))]
+    if node.get('constexpr') and t[0] == 'base' and t[2].get('kind') in ('builtin', 'enum') and not is_ref(t):
+        cxx = L.printed_name(node).replace('(anonymous namespace)::', '')
+        L.probe_consts[cname] = cxx
+        base_t = cdecl(t).replace('const ', '')
+        L.global_text[cname] = 'static const %s %s = @@CONST:%s@@;' % (base_t, cname, cname)
+        return cname
+    init = [c for c in node.get('inner', ()) if c and c.get('kind', '').endswith(('Expr', 'Operator', 'Literal', 'Cleanups'))]
     if not init:
         # static data member defined out of line? look for a definition redeclaration
         for m in L.ix.by_id.values():
             if m.get('previousDecl') == i and m.get('kind') == 'VarDecl':
-                init = [c for c in m.get('inner', ()) if c and c.get('kind', '').endswith(('Expr', 'Operator', 'Literal'))]
+                init = [c for c in m.get('inner', ()) if c and c.get('kind', '').endswith(('Expr', 'Operator', 'Literal', 'Cleanups'))]
                 if init:
                     break
     if not init:
@@ -422,13 +428,7 @@ def global_of(L, node):
     if t[0] == 'arr':
         fl.pre, fl.post = [], []
         txt = array_init_text(fl, init[0])
-        L.global_text[cname] = 'static %s = %s;' % (cdecl(t, cname).replace('const ', ''), txt)
-        return cname
-    if node.get('constexpr') and t[0] == 'base' and t[2].get('kind') in ('builtin', 'enum') and not is_ref(t):
-        cxx = L.printed_name(node).replace('(anonymous namespace)::', '')
-        L.probe_consts[cname] = cxx
-        base_t = cdecl(t).replace('const ', '')
-        L.global_text[cname] = 'static const %s %s = @@CONST:%s@@;' % (base_t, cname, cname)
+        L.global_text[cname] = 'static const %s = %s;' % (cdecl(t, cname).replace('const ', ''), txt)
         return cname
     grec = L.rec_of_type(t)
     if grec is not None and not is_ref(t):
